@@ -309,7 +309,8 @@ fn gen_ref(rng: &mut Rng, pats: &[GPat]) -> (String, usize) {
     if pats.is_empty() || rng.chance(1, 40) { return ("nopattern".to_owned(), rng.below(3)); }
     let p = rng.pick(pats);
     let g = TEMPLATES[p.tpl].groups;
-    let idx = match rng.below(12) { 0 => 0, 1 => g + 1 + rng.below(3), _ => 1 + rng.below(g) };
+    // index 0 = the whole line (split) / the whole match (captures); for split patterns it is a documented, common reference
+    let idx = if TEMPLATES[p.tpl].split && rng.chance(1, 4) { 0 } else { match rng.below(12) { 0 => 0, 1 => g + 1 + rng.below(3), _ => 1 + rng.below(g) } };
     (p.name.clone(), idx)
 }
 
